@@ -38,6 +38,12 @@ func main() {
 		c15Child(os.Args[2])
 		return
 	}
+	if prop == "child" && len(os.Args) == 3 {
+		// a scenario that may bring the process down (a panic in an engine goroutine cannot be recovered by
+		// the caller): run in a process of its own, the parent judges the exit
+		childScenario(os.Args[2])
+		return
+	}
 	fs := flag.NewFlagSet(prop, flag.ExitOnError)
 	seed := fs.Uint64("seed", 1, "PRNG seed")
 	tier := fs.String("tier", "quick", "quick|thorough")
